@@ -30,6 +30,9 @@ pub enum Edit {
     Reorder { a_id: u32, b_id: u32 },
     Noop,
     Fault(Fault),
+    /// an edit inside the function a composite site calls: one sub-site is replaced (Duo) or the
+    /// delay line resized (DlySrc); the site keeps its identity, its other sub-site is untouched
+    Inner { pos: usize, id: u32 },
 }
 
 /// One version of the edited file.
@@ -238,6 +241,53 @@ impl ProgGen {
         p.fault = None;
         p.cosmetic = rng.below(8) as u32;
         let n = p.sites.len();
+        // inner edits whenever the program has a composite site
+        let composites: Vec<usize> = p
+            .sites
+            .iter()
+            .enumerate()
+            .filter(|(_, v)| matches!(v.kind, Kind::Duo | Kind::DlySrc))
+            .map(|(i, _)| i)
+            .collect();
+        if !composites.is_empty() && rng.chance(1, 2) {
+            let pos = *rng.pick(&composites);
+            let id = p.sites[pos].id;
+            match p.sites[pos].kind {
+                Kind::Duo => {
+                    let k = rng.below(2) as usize;
+                    let other_kind = p.sites[pos].subs[1 - k].kind;
+                    let old_kind = p.sites[pos].subs[k].kind;
+                    let mut sv;
+                    let mut guard = 0;
+                    loop {
+                        let sk = *rng.pick(&crate::voices::SUB_KINDS);
+                        sv = gen_voice(rng, 600_000 + self.fresh_id(), sk, 0, self.cfg.max_delay);
+                        guard += 1;
+                        if (sk != other_kind && sk != old_kind) || guard > 30 {
+                            break;
+                        }
+                    }
+                    if matches!(sv.input, crate::voices::InputSrc::DspIn(_)) {
+                        sv.input = crate::voices::InputSrc::Now;
+                    }
+                    p.sites[pos].subs[k] = sv;
+                }
+                _ => {
+                    // resize the delay line
+                    let lens = [2u32, 3, 4, 7, 16, 33];
+                    let cur = p.sites[pos].n;
+                    let mut n = *rng.pick(&lens);
+                    if n == cur {
+                        n = if cur == 4 { 7 } else { 4 };
+                    }
+                    p.sites[pos].n = n;
+                    let d = p.sites[pos].p[1].min((n - 1) as f64).max(1.0);
+                    p.sites[pos].p[1] = d;
+                }
+            }
+            p.edit = Edit::Inner { pos, id };
+            return p;
+        }
         for _attempt in 0..8 {
             match rng.below(100) {
                 0..=24 if n < self.cfg.max_sites.max(1) + 2 => {
@@ -276,7 +326,7 @@ impl ProgGen {
                 }
                 80..=87 if n >= 1 => {
                     let pos = rng.below(n as u64) as usize;
-                    if p.sites[pos].wrap < 2 {
+                    if p.sites[pos].wrap < 2 && !matches!(p.sites[pos].kind, Kind::Duo | Kind::DlySrc) {
                         let old_id = p.sites[pos].id;
                         let new_id = self.fresh_id();
                         p.sites[pos].wrap += 1;
